@@ -36,4 +36,24 @@ theorem vlan_operations_are_one_critical_section :
     oneDeferredSection "nexus.VLANAllocator.Release" "v.mu" ["v.allocations", "v.sTagUsage"] = true ∧
     underW "nexus.VLANAllocator.Release" "c" "v.releaseUnlocked" "v.mu" = true := by decide
 
+/-- state.Store: every Create / Update / Delete of a subscriber, lease, session or NAT binding is ONE exclusive section
+    of the store mutex covering the primary table and all of its secondary indexes (by MAC, by NTE, by IP, by private /
+    public address) — the Index model's atomic steps -/
+theorem state_store_mutations_are_one_critical_section :
+    oneDeferredSection "state.Store.CreateSubscriber" "s.mu" ["s.subscribers", "s.subscriberByMAC", "s.subscriberByNTE"] = true ∧
+    oneDeferredSection "state.Store.UpdateSubscriber" "s.mu" ["s.subscribers", "s.subscriberByMAC", "s.subscriberByNTE"] = true ∧
+    oneDeferredSection "state.Store.DeleteSubscriber" "s.mu" ["s.subscribers", "s.subscriberByMAC", "s.subscriberByNTE"] = true ∧
+    oneDeferredSection "state.Store.CreateLease" "s.mu" ["s.leases", "s.leaseByMAC", "s.leaseByIP"] = true ∧
+    oneDeferredSection "state.Store.DeleteLease" "s.mu" ["s.leases", "s.leaseByMAC", "s.leaseByIP"] = true ∧
+    oneDeferredSection "state.Store.CreateSession" "s.mu" ["s.sessions", "s.sessionByMAC", "s.sessionByIP"] = true ∧
+    oneDeferredSection "state.Store.DeleteSession" "s.mu" ["s.sessions", "s.sessionByMAC", "s.sessionByIP"] = true ∧
+    oneDeferredSection "state.Store.CreateNATBinding" "s.mu" ["s.natBindings", "s.natByPrivate", "s.natByPublic"] = true ∧
+    oneDeferredSection "state.Store.DeleteNATBinding" "s.mu" ["s.natBindings", "s.natByPrivate", "s.natByPublic"] = true ∧
+    writesUnderW "state.Store.CreateSubscriber" ["s.subscribers", "s.subscriberByMAC", "s.subscriberByNTE"] "s.mu" = true ∧
+    writesUnderW "state.Store.DeleteSubscriber" ["s.subscribers", "s.subscriberByMAC", "s.subscriberByNTE"] "s.mu" = true ∧
+    writesUnderW "state.Store.CreateLease" ["s.leases", "s.leaseByMAC", "s.leaseByIP"] "s.mu" = true ∧
+    writesUnderW "state.Store.DeleteLease" ["s.leases", "s.leaseByMAC", "s.leaseByIP"] "s.mu" = true ∧
+    writesUnderW "state.Store.CreateSession" ["s.sessions", "s.sessionByMAC", "s.sessionByIP"] "s.mu" = true ∧
+    writesUnderW "state.Store.DeleteSession" ["s.sessions", "s.sessionByMAC", "s.sessionByIP"] "s.mu" = true := by decide
+
 end Bng.Spec.C20Locks
